@@ -156,7 +156,43 @@ def _agreement(ctx: Ctx):
             ctx.sample({"formula": f, "routes": len(results), "columns": ref_names})
 
 
+def _codings(ctx: Ctx):
+    """every built-in coding with every option, as a main effect (reduced and full rank) and inside an interaction: the three outputs and
+    both materializers hold the same numbers"""
+    import numpy as np
+    import pandas as pd
+    from formulaic import model_matrix
+    rng = ctx.fork("codings")
+    codings = ["contr.treatment", "contr.treatment(base='y')", "contr.SAS", "contr.sum", "contr.helmert", "contr.helmert(reverse=False)", "contr.helmert(scale=True)",
+               "contr.helmert(reverse=False, scale=True)", "contr.diff", "contr.diff(backward=False)", "contr.poly", "contr.poly(scores=[1, 2, 4, 8])"]
+    n = 9
+    for coding in codings:
+        for nlev in (2, 3, 4):
+            if "scores" in coding and nlev != 4:
+                continue
+            lv = ["w", "x", "y", "z"][4 - nlev:] if "base='y'" in coding else ["w", "x", "y", "z"][:nlev]
+            df = pd.DataFrame({"A": pd.Series([lv[(k * 3 + k // 2) % nlev] for k in range(n)], dtype=object), "a": [float(k % 4) + 0.5 * k for k in range(n)]})
+            for f in (f"C(A, {coding})", f"0 + C(A, {coding})", f"a + a:C(A, {coding})", f"0 + C(A, {coding}):a"):
+                ctx.oracle_runs += 1
+                rp = {"kind": "codings", "formula": f, "levels": lv}
+                try:
+                    res = {(out, mat): model_matrix(f, df, output=out, materializer=mat) for out in ("pandas", "numpy", "sparse") for mat in ("pandas", "narwhals")}
+                except Exception as e:
+                    ctx.fail(f"{f!r} with levels {lv}: {type(e).__name__}: {str(e)[:200]}", rp)
+                    continue
+                ref = np.asarray(res[("pandas", "pandas")], dtype=float)
+                refn = list(res[("pandas", "pandas")].model_spec.column_names)
+                for (out, mat), m_ in res.items():
+                    a = np.asarray(m_.toarray() if out == "sparse" else m_, dtype=float)
+                    if list(m_.model_spec.column_names) != refn or a.shape != ref.shape or not np.allclose(a, ref, rtol=1e-12, atol=1e-12):
+                        ctx.fail(f"{f!r} with levels {lv}: output={out}, materializer={mat} gives {a.tolist()} {list(m_.model_spec.column_names)}; "
+                                 f"pandas/pandas gives {ref.tolist()} {refn}", rp)
+                        break
+                ctx.count("codings", coding.split("(")[0])
+
+
 def run(ctx: Ctx):
+    _codings(ctx)
     _sparse_stream(ctx)
     _agreement(ctx)
 
